@@ -40,7 +40,7 @@ def with_base(prog, base):
     done = False
     for f in p.files:
         for i, s in enumerate(f.stmts):
-            if s.k == "link" or (s.k == "dot" and f is p.files[0] and i == 0):
+            if s.k == "link" or (s.k == "dot" and (getattr(s, "is_base", False) or (f is p.files[0] and i == 0))):
                 if not done:
                     s.expr = apm.num(base)
                     done = True
